@@ -709,3 +709,24 @@ def literal_grammar_value(text: str, env: dict[str, int]) -> Fraction:
     if i != len(toks):
         raise NotInGrammar("trailing tokens")
     return v
+
+
+def parenthesise_power_under_minus(tree: ast.AST) -> tuple[str, bool]:
+    """Counterfactual text (naming aid): the same Python expression with explicit parentheses
+    around every power that stands directly under a run of unary minuses, ``-a ** b`` ->
+    ``-(a ** b)``; nothing else is changed.  Returns (python text, whether anything changed)."""
+    import copy
+
+    changed = False
+
+    class T(ast.NodeTransformer):
+        def visit_UnaryOp(self, n):
+            nonlocal changed
+            self.generic_visit(n)
+            if isinstance(n.operand, ast.BinOp) and isinstance(n.operand.op, ast.Pow):
+                changed = True
+                n.operand = ast.Call(func=ast.Name(id="__PAREN__", ctx=ast.Load()), args=[n.operand], keywords=[])
+            return n
+
+    new = ast.fix_missing_locations(T().visit(copy.deepcopy(tree)))
+    return ast.unparse(new).replace("__PAREN__", ""), changed
